@@ -692,6 +692,12 @@ func (x *Exec) callByContractFull(s *State, c *Contract, name string, pnames []s
 	// havoc
 	targets := x.resolveAssigns(c.Assigns, envPre)
 	allocBefore := x.getSt(s, "alloc", arraySort(SRef, SBool))
+	for _, t := range targets {
+		// a callee that writes a field of an object allocated at our entry writes it on our behalf (write-time frame)
+		if strings.HasPrefix(t.Var, "H.") && len(t.Idx) >= 1 && call != nil {
+			x.checkWriteFrame(s, t.Var, t.Idx[0], call)
+		}
+	}
 	x.applyHavoc(s, targets)
 	if allocAfter := x.getSt(s, "alloc", arraySort(SRef, SBool)); allocAfter != allocBefore {
 		// allocation is monotone
